@@ -198,6 +198,9 @@ func (cl *Client) WriteLoop() {
 			if err := cl.WritePacket(*pk); err != nil {
 				// TODO : Figure out what to do with error
 				cl.ops.log.Debug("failed publishing packet", "error", err, "client", cl.ID, "packet", pk)
+				if errors.Is(err, packets.ErrPacketTooLarge) && pk.FixedHeader.Type == packets.Publish && pk.FixedHeader.Qos == 0 {
+					cl.ops.hooks.OnPublishDropped(cl, *pk) // [MQTT-3.1.2-25] discarded without being sent
+				}
 
 				// The refused packet may have been the last of a burst: packets buffered (and
 				// reported as sent) while the queue was non-empty must not stay in the buffer.
